@@ -58,6 +58,9 @@ func newRevWorldURLs(n int, o, c []int, p purposeKind, override func(kind string
 		}
 		if n == 1 {
 			t, key = pki.LeafTmpl("rev self-signed leaf"), "p256-e"
+			if p == purposeTS {
+				t = pki.TSALeafTmpl("rev self-signed tsa leaf")
+			}
 		}
 		t.Serial = big.NewInt(int64(0x6100 + i))
 		var parent *pki.Cert
